@@ -57,12 +57,15 @@ def run(tier):
     jobs = [(x["A"], ["int8", "int64"][i % 2]) for i, x in enumerate(dumped)]
     nsmall = len(jobs)
     jobs += strata(ck.rng, 400 if quick else 6000)
-    recs = par.pmap(workers.f2_calls, jobs)
-    for r in recs:
+    out = par.pmap(workers.f2_calls, jobs)
+    recs = [r[0] for r in out]
+    probes = [r[1] for r in out]          # same entries regrouped to the other shape, evaluated right after (exposes caches keyed on raw bytes)
+    for r in recs + probes:
         if r["exc"]:
             ck.violation(f"f2 {r['A']}", f"f2_algebra raises {r['exc']} on a {r['m']}x{r['n']} binary matrix", {"A": r["A"], "dtype": r["dtype"]})
-    good = [r for r in recs if not r["exc"]]
+    good = [r for r in recs + [p for p in probes if p["m"] != p["n"]] if not r["exc"]]
     # spec -> code comparison against the dumped oracle values (small matrices)
+    ck.cov["reshape_probes"] = sum(1 for p in probes if p["m"] != p["n"])
     for x, r in zip(dumped, recs[:nsmall]):
         if not r["exc"] and (r["R"] != x["R"] or r["piv"] != x["piv"]):
             ck.violation(f"f2 {r['A']}", f"rref({r['A']}) = {r['R']} pivots {r['piv']}, the specification computed {x['R']} pivots {x['piv']}", {"A": r["A"], "dtype": r["dtype"]})
@@ -82,7 +85,7 @@ def run(tier):
     ck.cov["largest_shape"] = max((r["m"] * r["n"], [r["m"], r["n"]]) for r in good)[1]
     if ck.cov["full_column_rank_cases"] == 0:
         raise MachineryError("vacuity: no full-column-rank matrix")
-    ck.sample({k: good[700][k] for k in ("m", "n", "A", "R", "piv", "rank", "M", "ns")})
+    ck.sample({k: recs[700][k] for k in ("m", "n", "A", "R", "piv", "rank", "M", "ns")})
     ck.sample({"m": good[-1]["m"], "n": good[-1]["n"], "rank": good[-1]["rank"], "ns_shape": good[-1]["ns"]["shape"]})
     ck.cov["exhaustive"] = False
     ck.cov["exhaustive_parts"] = "all 74954 binary matrices with 1..4 rows and 1..4 columns"
@@ -95,7 +98,7 @@ def run(tier):
 def replay(path):
     import json
     p = json.load(open(path))["payload"]
-    r = workers.f2_calls((p["A"], p.get("dtype", "int8")))
+    r = workers.f2_calls((p["A"], p.get("dtype", "int8"), False))
     if r["exc"]:
         print("replayed:", r["exc"])
         return 1
